@@ -19,6 +19,8 @@ MCCfg4x4a2 == [grid_size |-> 4, num_agents |-> 2, time_limit |-> 3, generator |-
 AllStarts == AllCells0
 SymStarts3 == { <<0, 0>>, <<0, 1>>, <<1, 1>> }        \* one start of agent 0 per symmetry class of the 3 x 3 square
 SymStarts4 == { <<0, 0>>, <<0, 1>>, <<1, 1>> }        \* same for 4 x 4
+CenterOnly == { <<1, 1>> }
+CornerOnly == { <<0, 0>> }
 
 JointActions == [1..K -> Moves]
 
@@ -52,7 +54,6 @@ Bounded == Unlimited \/ s.step_count <= tl + 1
 View == <<s.grid, s.agents, type, tl, IF Unlimited THEN 0 ELSE s.step_count>>
 
 Solo(i, m) == [k \in 1..K |-> IF k = i + 1 THEN m ELSE NOOP]
-Owned(g, i) == { <<p, Val(g, p)>> : p \in { q \in AllCells0 : Val(g, q) # 0 /\ OwnerOf(Val(g, q)) = i } }
 
 (* ---- properties of one state ---- *)
 (* C03 *) Protocol ==
@@ -87,7 +88,7 @@ LegalNeverInvalid(a, t) ==
 (* C05 *) InvalidNoEffect(a, t) ==
   \A i \in Agents : ~LegalAg(s, i, a[i + 1]) =>
      /\ PosOf(t, i) = PosOf(s, i)
-     /\ Owned(t.grid, i) = Owned(s.grid, i)
+     /\ OwnedSame(s, t, i)
      /\ Reward100(s, t, i) = (IF Connected(s, i) THEN 0 ELSE -3)
 (* C05 *) AllInvalidChangesNothing(a, t) ==
   (\A i \in Agents : ~Proposes(s, a, i)) => t = [s EXCEPT !.step_count = @ + 1]
